@@ -386,6 +386,14 @@ func rtpOutGrammar(ssrc uint32, emit func(input)) {
 			emit(input{hdr: &hc, payload: p, desc: fmt.Sprintf("rtp-out shape=%d payload=%d", shape, n)})
 		}
 	}
+	// packets whose SSRC is not the stream's own: its RTX and FEC siblings and a number nobody announced
+	for _, other := range []uint32{ssrc + 0x100, ssrc + 0x200, 0xdeadbeef} {
+		for _, n := range []int{0, 100, 1461} {
+			h, _ := hk.Shape(0, other, 5100, 1)
+			_ = h.SetExtension(hk.TwccExtID, []byte{0, 3})
+			emit(input{hdr: &h, payload: make([]byte, n), desc: fmt.Sprintf("rtp-out ssrc=%#x payload=%d", other, n)})
+		}
+	}
 	// the legacy padding form: padding bit, PaddingSize 0, count in the last payload byte
 	for _, last := range []byte{0, 1, 4, 5, 255} {
 		h := rtp.Header{Version: 2, PayloadType: 96, SequenceNumber: 6000, SSRC: ssrc, Padding: true}
@@ -402,6 +410,8 @@ type target struct {
 	l1  *hk.Local
 	r1  *hk.Remote
 	seq uint16
+	// closed: Close has been called (a probe afterwards only has to return)
+	closed bool
 }
 
 func newTarget(kind string) (*target, error) {
@@ -491,8 +501,30 @@ func (t *target) probe(kind, path string) string {
 	case "rtp-out":
 		h, p := hk.Shape(0, t.l1.Info.SSRC, 7000+t.seq, 9)
 		_ = h.SetExtension(hk.TwccExtID, []byte{byte(t.seq >> 8), byte(t.seq)})
+		t.s.T.TakeRTP()
 		if _, err := t.l1.W.Write(&h, p, nil); err != nil {
 			return fmt.Sprintf("a well-formed packet written afterwards was refused: %v", err)
+		}
+		if t.closed {
+			return ""
+		}
+		// ... and it must reach the transport (pacers: within the time that empties any backlog many times over)
+		iv := hk.ReportInterval
+		if t.x != nil && t.x.Interval > 0 {
+			iv = t.x.Interval
+		}
+		for k := 0; ; k++ {
+			vsched.Quiesce()
+			for _, r := range t.s.T.TakeRTP() {
+				if r.Header.SSRC == h.SSRC && r.Header.SequenceNumber == h.SequenceNumber {
+					return ""
+				}
+			}
+			if k == 40 {
+				return fmt.Sprintf("a well-formed packet (SSRC %#x, sequence number %d) written afterwards was accepted but never reached the transport (%d intervals waited)", h.SSRC, h.SequenceNumber, 10*k)
+			}
+			vsched.StepBudget(3_000_000)
+			vsched.Advance(10 * iv)
 		}
 	}
 	return ""
@@ -627,6 +659,7 @@ func runRange(j job, inputs []input, from int) (int, *hk.Violation) {
 			return
 		}
 		_ = t.s.I.Close()
+		t.closed = true
 		// the prior history of a packet may contain Close: a well-formed packet afterwards must not crash or
 		// wedge the caller either (whether it is passed on or refused is C11's subject)
 		vsched.StepBudget(3_000_000)
@@ -653,12 +686,19 @@ func runRange(j job, inputs []input, from int) (int, *hk.Violation) {
 	case res.Deadlock:
 		return at, mk("caller-blocked", fmt.Sprintf("the calling thread never returns: %+v", res.Blocked))
 	case msg != "":
+		if in := inputs[at]; key == "stops-working-after-input" && j.Kind == "pacing" && in.hdr != nil && 8*(in.hdr.MarshalSize()+len(in.payload)) >= pacingBucketBits {
+			key += ":after-packet-larger-than-token-bucket"
+		}
 		return at, mk(key, msg)
 	case len(res.Failures) > 0:
 		return at, mk("harness", res.Failures[0])
 	}
 	return len(inputs), nil
 }
+
+// pacingBucketBits is the capacity of the pacing interceptor's token bucket as the catalog configures it
+// (4 Mbit/s, 5 ms interval: max(8*1500, rate/200) bits).
+const pacingBucketBits = 20000
 
 func topFrame(stack string) string {
 	for _, l := range strings.Split(stack, "\n") {
